@@ -36,8 +36,29 @@ INNER_VAL = {"I5": "I5{M: func() int { return 55 }}", "I1": "I1{A: 11}", "I2": '
 FIELD_VAL = {("A", "int"): "1", ("A", "string"): '"a"', ("B", "int"): "2", ("c", "int"): "3"}
 
 
+def gen_maps(cases):
+    """Go declarations and registry for the map environment shapes (Resolve!MapShapes)."""
+    out, reg = [], ["var mapShapes = []mapShape{"]
+    for i, c in enumerate(cases):
+        ety = "interface{}" if c["elem"] == "any" else "int"
+        under = "map[string]%s" % ety
+        tn = under
+        if c["named"]:
+            tn = "MT%d" % i
+            out.append("type %s %s" % (tn, under))
+            if c["method"] == "val":
+                out.append("func (%s) M() int { return 100 }" % tn)
+        items = ['"A": 1'] + (['"G": func() int { return 7 }'] if c["elem"] == "any" else [])
+        decl = ("type T " + under if c["named"] else under) + (" + func (T) M()" if c["method"] == "val" else "")
+        reg.append("\t{Decl: %s, Val: %s{%s}, Names: %s}," % (json.dumps(decl), tn, ", ".join(items), json.dumps(json.dumps(c["names"]))))
+    reg.append("}")
+    return "\n".join(out) + "\n\n" + "\n".join(reg) + "\n"
+
+
 def gen(cases):
-    out = ["package main", "", INNER]
+    maps = [c for c in cases if c.get("kind") == "map"]
+    cases = [c for c in cases if c.get("kind") != "map"]
+    out = ["package main", "", INNER, gen_maps(maps)]
     reg = ["var shapes = []shape{"]
     for i, c in enumerate(cases):
         tn = "T%d" % i
